@@ -144,7 +144,7 @@ def build_real(lang: Lang, am: AModel, factory, Model, AttackerAttachment=None,
     nxt = 0
     for a in am.assets:
         cls = getattr(factory.ns, a['type'])
-        obj = cls(name=a['name'])
+        obj = cls(name=a.get('req_name', a['name']))
         for d, v in a['defenses'].items():
             setattr(obj, d, v)
         if a.get('extras'):
@@ -155,6 +155,10 @@ def build_real(lang: Lang, am: AModel, factory, Model, AttackerAttachment=None,
             model.add_asset(obj)
         nxt = max(nxt, a['id'] + 1)
         objs[a['id']] = obj
+        if 'req_name' in a:
+            # the implementation chooses the replacement name (S5); adopt it,
+            # the caller checks the constraints on the choice
+            a['name'] = str(obj.name)
     for l in am.links:
         a = lang.assocs[l['assoc']]
         cls = getattr(factory.ns, lang.assoc_class_name(l['assoc']))
